@@ -1046,8 +1046,19 @@ def binding_stem_lint(repo, rep, rule, modules, report=True):
                 # a quantifier over a collection read from a feature map: `x_is_cpu_produced = any(.. for p in op.ifm.ops)`
                 if isinstance(v, ast.Call) and isinstance(v.func, ast.Name) and v.func.id in ("any", "all", "len", "list", "sum") and v.args and isinstance(v.args[0], (ast.GeneratorExp, ast.ListComp)):
                     v = v.args[0].generators[0].iter
-                while isinstance(v, ast.Call) and isinstance(v.func, ast.Attribute) and not v.args:
+                while isinstance(v, ast.Call) and isinstance(v.func, ast.Attribute) and (not v.args or v.func.attr in ("with_hw", "with_height", "with_width", "with_depth", "with_axis", "with_batch")):
                     v = v.func.value
+                if isinstance(v, ast.Name) and v is not st.value:
+                    # `ifm_shape = ofm_shape.with_hw(h, w)`: a shape derived from a side-named local
+                    vs = side(v.id)
+                    if len(vs) == 1:
+                        n += 1
+                        if report:
+                            rep.check(ts == vs, rule, f"ethosu/vela/{mname}.py:{q}", f"`{st.targets[0].id}` is derived from the {next(iter(ts))} side (`{str(norm(st.value))[:60]}`)",
+                                      f"`{st.targets[0].id}` is bound to `{str(norm(st.value))[:70]}`: a quantity of the {next(iter(vs))} is used where the {next(iter(ts))}'s is meant")
+                        elif ts != vs:
+                            print("STEM", mname, q, str(norm(st))[:90])
+                    continue
                 if not isinstance(v, ast.Attribute):
                     continue
                 vs = side(str(norm(v)))
